@@ -674,10 +674,11 @@ pub fn zz_dbg<X>(_x: &X, f: &mut fmt::Formatter<'_>) -> fmt::Result {
 
 pub fn fmt_alt<X: Payload>(x: &X, f: &mut fmt::Formatter<'_>) -> fmt::Result {
     ev(format!("m_fmt_alt:{}", pid(x)));
+    // the size of the type the method was instantiated with shows whether it got the field or a reference to it
     if f.alternate() {
-        write!(f, "alt<{}>", x.a())
+        write!(f, "alt<{}:{}>", x.a(), ::std::mem::size_of::<X>())
     } else {
-        write!(f, "m<{}>", x.a())
+        write!(f, "m<{}:{}>", x.a(), ::std::mem::size_of::<X>())
     }
 }
 
